@@ -26,7 +26,7 @@ COMPACT_AS_INSERT = ".Derives::insert_derive(T[#0](%s@v1::Some.0))" % COMPACT_AS
 def check(ctx):
     P = ctx.P
     expect_fn(ctx, "C08.1", "resolve", "FlatDerivesRegistry::resolve",
-              "mut[P0.default_derives;.Derives::extend_from(HashMap::get(P0.specific_type_derives,P1)@v1::Some.0) if let v1::Some($)=HashMap::get(P0.specific_type_derives,P1)]",
+              "if(let v1::Some($)=HashMap::get(P0.specific_type_derives,P1)){mut[P0.default_derives;.Derives::extend_from(HashMap::get(P0.specific_type_derives,P1)@v1::Some.0)]}else{P0.default_derives}",
               "derives(type) = global derives extended by the entry registered for exactly this path (nothing else)", "scale_typegen")
     expect_fn(ctx, "C08.1", "resolve/for-type", "FlatDerivesRegistry::resolve_derives_for_type", "Ok(FlatDerivesRegistry::resolve(P0,utils::syn_type_path(P1)?))",
               "keyed by the type's own full path", "scale_typegen")
